@@ -165,7 +165,7 @@ pub fn check_script(s: &SetScript, st: &mut Stats) -> Result<(), String> {
         st.hit("has-duplicates");
     }
     st.hit(&format!("root:{}", ["world", "base", "quintant", "deep"][s.root_kind as usize % 4]));
-    st.hit(&format!("input-size:{}", match input_ids.len() { 0 => "0", 1..=4 => "1-4", 5..=20 => "5-20", 21..=100 => "21-100", _ => ">100" }));
+    st.hit(&format!("input-size:{}", match input_ids.len() { 0 => "0", 1..=4 => "1-4", 5..=20 => "5-20", 21..=100 => "21-100", 101..=1023 => "101-1023", 1024..=4095 => "1024-4095", _ => ">=4096" }));
     st.sample(nt, || json!({"root": gen::cell_json(&b.root), "input": input_ids.iter().take(24).map(|x| format!("{:x}", x)).collect::<Vec<_>>(), "input_len": input_ids.len(), "output": out.iter().take(24).map(|x| format!("{:x}", x)).collect::<Vec<_>>(), "injected_overlaps": b.injected_overlaps, "deleted": b.deleted}));
     Ok(())
 }
